@@ -172,6 +172,14 @@ D = {
  'C04-stop-emulation-reinstalls-with-signal': ('C04', 'emulate_default_handler (stop kinds) resets the signal with signal(), raises it, and puts the saved handler back with signal()', 'a siginfo handler chained on SIGTSTP, the emulation called once, then a later delivery: the library handler is back without SA_SIGINFO'),
  'C18-read-selects-slot-twice': ('C18', 'HalfLock::read computes the slot twice (fetch_add, then for the guard)', 'a generation switch between the two: the guard decrements the other slot, one slot stays at 1 forever, the next barrier spins'),
  'C18-unregister-precheck-guard-held': ('C18', 'unregister pre-checks under a read guard that is still alive while it waits for the write mutex', 'two mutators: one holds the mutex before its barrier, the other waits for the mutex holding a slot count: deadlock'),
+ 'C05-stop-emulation-leaves-default': ('C05', 'emulate_default_handler sends stop-kind signals down the terminate path (restore default, raise the signal itself)', 'a stop-kind signal taken over, its emulation, SIGCONT: the disposition stays SIG_DFL for good'),
+ 'C05-slot-new-ors-previous-flags-r5': ('C05', 'Slot::new ORs the sa_flags of the disposition it replaces into the library handler\'s (round 5, independent rediscovery)', 'a previous SA_RESETHAND handler: after one delivery the disposition is SIG_DFL'),
+ 'C07-recycle-guard-underscore-r5': ('C07', 'recv hands the slot back through a drop guard bound with `let _ =` (round 5, independent rediscovery)', 'a nearly full channel and a send inside the window'),
+ 'C07-init-always-swaps-and-frees': ('C07', 'WithRawSiginfo::init always swaps in a fresh channel and frees the old one', 'a refused registration retried from another thread while the iterator thread is inside load for that slot: use after free'),
+ 'C06-load-detaches-channel': ('C06', 'WithRawSiginfo::load swaps the channel pointer to null around recv()', 'a delivery of that signal while the consumer is inside load: store sees null and drops the record with fewer than five outstanding'),
+ 'C06-slot-fastpath-flag-race': ('C06', 'the raw Slot gains a has-data flag: store sets it after send, load clears it when recv() is empty', 'a delivery between the empty recv() and the clear: the record sits in the buffer, every receive reports empty until the next signal'),
+ 'C08-send-retries-slot-in-transit-r5': ('C08', 'send retries dequeue(empty) unless the full queue holds all five (round 5, independent rediscovery)', 'a send in a handler that interrupted a recv holding the fifth slot on the same thread: spins forever'),
+ 'C08-counted-infos-expect': ('C08', 'the raw Slot counts waiting infos (store: send then fetch_add; load: claim then recv().expect(..))', 'six or more undrained deliveries of one signal: the dropped one is counted, the sixth load panics in Pending::next'),
 }
 for name, (prop, change, needs) in D.items():
     d = os.path.join(ROOT, 'seeded', name)
